@@ -12,7 +12,7 @@ extern size_t gh_fmt_need;  /* characters the most recent float/double formattin
 /* bytes written by this call */
 #define WROTE (gh_out_len - OLD(gh_out_len))
 /* the first byte written by this call, observed through the watch position */
-#define WATCH_FIRST (gh_watch == OLD(gh_out_len) && gh_out_len > OLD(gh_out_len))
+#define WATCH_FIRST (gh_watch == OLD(gh_out_len) && gh_out_len > OLD(gh_out_len) && OLD(gh_out_len) <= (1ul << 61))
 #define HAD_ITEMS (OLD(context->output_count) > 0)
 /* C06: ',' in front of the item exactly when the unit already has an item; one more item afterwards */
 #define ITEM_CLAUSES \
